@@ -88,6 +88,18 @@ func (r *lockResult) muCall(c ssa.CallInstruction) string {
 }
 
 func (e *Engine) lockAnalysis(role string) *lockResult {
+	if e.locks == nil {
+		e.locks = map[string]*lockResult{}
+	}
+	if r, ok := e.locks[role]; ok {
+		return r
+	}
+	r := e.lockAnalysis0(role)
+	e.locks[role] = r
+	return r
+}
+
+func (e *Engine) lockAnalysis0(role string) *lockResult {
 	r := &lockResult{role: role, mu: e.field(role, "Client", "mu"),
 		entry: map[*ssa.Function]lstate{}, entryWhy: map[*ssa.Function]string{}, at: map[ssa.Instruction]lstate{},
 		locks: map[*ssa.Function][]ssa.Instruction{}, unlocks: map[*ssa.Function][]ssa.Instruction{}, defUnlock: map[*ssa.Function][]ssa.Instruction{},
